@@ -27,11 +27,15 @@ import (
 	"syscall"
 	"time"
 
+	"crypto"
+
 	"github.com/sassoftware/relic/v8/cmdline/remotecmd"
+	"github.com/sassoftware/relic/v8/lib/audit"
 	"github.com/sassoftware/relic/v8/lib/compresshttp"
 	"github.com/sassoftware/relic/v8/signers"
 
 	"verifharness/hx"
+	"verifharness/sg"
 )
 
 // ---------------------------------------------------------------------------------------------
@@ -950,6 +954,48 @@ func implCli(f []string) string {
 
 // ---------------------------------------------------------------------------------------------
 
+// ---------------------------------------------------------------------------------------------
+// sbuf <signer> <n|inf>: the real Sign of a signer that reads its whole input into memory, on n zero bytes (inf: a
+// stream that never ends); reports how many bytes it took from the stream and whether it refused the input for its size
+
+type countReader struct {
+	r io.Reader
+	n int64
+}
+
+func (c *countReader) Read(p []byte) (int, error) {
+	k, err := c.r.Read(p)
+	c.n += int64(k)
+	return k, err
+}
+
+func implSbuf(f []string) string {
+	if len(f) != 2 {
+		return "bad-op"
+	}
+	mod := signers.ByName(f[0])
+	if mod == nil || mod.Sign == nil {
+		return "bad-op"
+	}
+	var src io.Reader = zeroReader{}
+	if f[1] != "inf" {
+		src = io.LimitReader(zeroReader{}, hx.Atoi(f[1]))
+	}
+	cr := &countReader{r: src}
+	cert := sg.Cert("p256")
+	fv, err := mod.FlagsFromQuery(nil)
+	if err != nil {
+		return "err flags"
+	}
+	opts := signers.SignOpts{Hash: crypto.SHA256, Time: time.Unix(1700000000, 0).UTC(), Audit: audit.New(cert.KeyName, mod.Name, crypto.SHA256), Flags: fv}
+	_, err = mod.Sign(cr, cert, opts)
+	res := "parser"
+	if err != nil && strings.Contains(err.Error(), "exceeds") {
+		res = "toolarge"
+	}
+	return fmt.Sprintf("ok held=%d res=%s", cr.n, res)
+}
+
 // Handle runs one CHTTP op (fields after the first token)
 func Handle(f []string) string {
 	if len(f) < 1 {
@@ -968,6 +1014,8 @@ func Handle(f []string) string {
 		return implCli(f[1:])
 	case "bomb":
 		return implBomb(f[1:])
+	case "sbuf":
+		return implSbuf(f[1:])
 	}
 	return "bad-op"
 }
